@@ -82,6 +82,7 @@ def adversarial(positions, r):
 
 class C11(Check):
     pid = "C11"
+    library_exception_is_violation = True  # every call made in execute() is one the property covers, with valid arguments
     level = "fault_enumeration"
     chunk = 4
     run_timeout = 600.0
